@@ -683,8 +683,7 @@ func runContainers(c *Ctx) {
 	vals = append(vals, []any{}, map[string]any{}, []any{[]any{}}, map[string]any{"": map[string]any{}}, []any{[]any{}, map[string]any{}, []any{map[string]any{"a": []any{}}}},
 		[]any{nil, true, false, 0, 1.5, "s", json.Number("1.0"), big.NewInt(7)},
 		map[string]any{"b": 1, "a": 2, "ab": 3, "B": 4, "": 5, "a\x00": 6, "\xff": 7, "\u00e9": 8, "a b": 9, "\"": 10},
-		nested(5, false, "x"), nested(5, true, nil), nested(40, false, []any{}), nested(40, true, map[string]any{}),
-		nested(70, false, 1.5), nested(130, true, "deep"))
+		nested(5, false, "x"), nested(5, true, nil), nested(40, false, []any{}), nested(40, true, map[string]any{}))
 	g := genOpts{maxDepth: 5, maxWidth: 5, strLen: 12}
 	for i := 0; i < c.N; i++ {
 		vals = append(vals, genValue(rng, g, 0))
@@ -692,6 +691,12 @@ func runContainers(c *Ctx) {
 	for i, v := range vals {
 		emitLib(c, v, rng, true)
 		for _, o := range optionCombos(rng, i < 8) {
+			emitCli(c, v, o, rng)
+		}
+	}
+	for _, v := range []any{nested(70, false, 1.5), nested(130, true, "deep")} {
+		emitLib(c, v, rng, true)
+		for _, o := range []cliOpt{{false, -1, true, "default"}, {false, -1, false, "default"}, {true, 1, false, "default"}, {false, 1, true, "default"}, {false, 2, false, colourTables[1]}, {false, 3, true, "default"}} {
 			emitCli(c, v, o, rng)
 		}
 	}
@@ -721,7 +726,9 @@ func runContainers(c *Ctx) {
 			v := nested(d, obj, "x")
 			emitCli(c, v, cliOpt{true, 1, true, "default"}, rng)
 			emitCli(c, v, cliOpt{false, 1, true, "default"}, rng)
-			emitCli(c, v, cliOpt{false, 7, false, "default"}, rng)
+			if d <= 65 || c.Tier == "thorough" {
+				emitCli(c, v, cliOpt{false, 7, false, "default"}, rng)
+			}
 		}
 	}
 	// wide and large values: the 8 KiB flush threshold
